@@ -9,6 +9,11 @@ CLAIMED = {
         note="trusted: Kani's MIR->goto translation, CBMC, CaDiCaL, z3/cvc5; probe lemma bounded to tables of 2^16 groups; hooks v_capacity_to_buckets/v_calculate_layout_for/v_probe_next are thin wrappers (src/raw/verif_hooks.rs)",
         design="7 (C17)"),
 }
+CLAIMED["C18"] = dict(
+    technique="bounded model checking of the real group-scanner primitives over every group of bytes on both back-ends (Kani/CBMC), plus the same step harnesses decided on both back-ends against one reference model",
+    text="match_tag / match_empty / match_empty_or_deleted / match_full / convert_special_to_empty_and_full_to_deleted / BitMask iteration, leading and trailing zero counts are compared with their byte-by-byte definition for EVERY 16-byte (SSE2) and 8-byte (portable) group and every tag: no input bound, loop-free code; the portable tag-match false positives are allowed exactly as the property states; behavioural identity is decided by running find/insert/remove/iterate/retain step harnesses on both back-ends against the same back-end independent model",
+    note="trusted: Kani's models of the SSE2 intrinsics (_mm_cmpeq_epi8, _mm_movemask_epi8, _mm_cmpgt_epi8, _mm_or_si128); --cfg miri selects generic.rs exactly as the crate's own cfg chain does; iteration order is not part of the property",
+    design="7 (C18)")
 NA = {
     "C16": "type-level property (auto traits, variance, borrow lifetimes): decided by rustc's trait solver and borrow checker over types; there are no run-time values, paths or states to make symbolic, and no SMT encoding of Rust's trait/region rules is available in this sandbox (Creusot/Prusti absent)",
 }
